@@ -3,6 +3,7 @@ package main
 // Obligations and their discharge by z3-new / z3 / cvc5.
 
 import (
+	"regexp"
 	"bytes"
 	"context"
 	"fmt"
@@ -196,6 +197,8 @@ func (o *Obligation) relevantHyps() []*Term {
 
 var skCounter int
 
+var reDenomLit = regexp.MustCompile(`^[a-zA-Z][a-zA-Z0-9/:._-]{2,127}$`)
+
 func introGoal(g *Term) (*Term, []*Term) {
 	var hyps []*Term
 	for {
@@ -312,6 +315,15 @@ func (o *Obligation) SMT(withModel bool, forCVC5 bool) string {
 			if usesLen {
 				strAx = append(strAx, Eq(StrLen(c), Num(0)))
 			}
+		}
+		if _, ok := d.funs["validDenom"]; ok {
+			// sdk.ValidateDenom on a literal is decided by its regular expression (cosmos-sdk v0.46.10 types/coin.go)
+			for _, n := range lits {
+				lit := strings.TrimPrefix(n, "str:")
+				strAx = append(strAx, Eq(validDenom(Const(n, SStr)), BoolT(reDenomLit.MatchString(lit))))
+			}
+			strAx = append(strAx, Not(validDenom(emptyStr)))
+			d.consts["str:"] = SStr
 		}
 		if len(ts) > 1 {
 			strAx = append(strAx, &Term{K: TApp, Op: "distinct", Sort: SBool, Args: ts})
